@@ -26,6 +26,10 @@ def gen_dir(rng):
     files["empty_dest.zo"] = "# Header only\n"
     files["sections_dest.zo"] = "# Sections\n\n- 240302#00 top note\n\n" + "#" * 32 + " First\n\n- 240302#01 in first\n\n" + "=" * 24 + " Sub\n\no 240302#02 in sub\n"
     files["tmpl/new.zot"] = TEMPLATE
+    # in every directory: a note whose own tags merely START like the tags it inherits (+p10 / +p1 ...), below an earlier
+    # note whose three-character ZID extends its two-character one
+    files["fixed.zo"] = ("# Fixed page +p1\n\n" + "#" * 32 + " Sec @work %bob #a\n\n- 240301#F1x extended zid earlier note\n"
+                         "- 240301#F1 prefix tags +p10 @work_laptop %bobby #ab\n  * a bullet of it\n\n")
     return files
 
 
@@ -226,13 +230,16 @@ def run(oc, tier, seed):
             write_tree(d, {"no_newline.zo": "# No trailing newline\n\n- 240301#00 last line without newline"})
             dests = ["alpha", "beta.zo", "sub/gamma", "empty_dest", "no_newline", "sections_dest", "new/created", "missing/nowhere"]
             search_budget = 40
-            for _ in range(n_moves):
-                z = rng.choice(zids)
+            forced = [("240301#F1", "sections_dest", None), ("240301#F1", "new/created", "x"), ("240301#F1", "empty_dest", "~")]
+            for mv in range(n_moves):
+                z = forced[mv][0] if mv < len(forced) else rng.choice(zids)
                 info = note_info(d, z)
                 if info is None:
                     continue
                 dest = rng.choice(dests)
                 marker = rng.choice([None, None, "x", "~"])
+                if mv < len(forced):
+                    dest, marker = forced[mv][1], forced[mv][2]
                 RELATIVE[0] = rng.random() < 0.4
                 ok = check_move(eng, d, info, dest, marker, oc)
                 oc.count("dest_given_" + ("relative" if RELATIVE[0] else "absolute"))
@@ -256,6 +263,5 @@ def run(oc, tier, seed):
 
 
 def replay(path):
-    payload = json.load(open(path))
-    print(json.dumps(payload, indent=1)[:4000])
-    return 1
+    import sys
+    return lib.replay_by_rerun(sys.modules[__name__], "C10", path)
